@@ -53,11 +53,8 @@ func checkC24(r *Run) {
 					if !isOuter && !isInner {
 						continue
 					}
-					var fs []string
-					for _, a := range ff.Must(b) {
-						fs = append(fs, a.S)
-					}
-					sites = append(sites, site{FnName(fn), kind, name, fs, r.P.Pos(in.Pos()), t, key, val})
+					owner, fs := r.P.attribute(fn, b)
+					sites = append(sites, site{FnName(owner), kind, name, fs, r.P.Pos(in.Pos()), t, key, val})
 				}
 			}
 		}
